@@ -151,7 +151,7 @@ def suite_cost(ctx, case):
             ok = ok and bool(np.all(np.abs(d.r * (p.GammaOut.data[:, i, j] - gin[:, i, j]) - y.reshape((-1, n, n))[:, i, j]) <= 1e-12 * sc * d.r[-1]))
         ctx.pred('cost', sub, ok, 'stored arrays after cost(x) do not satisfy c = closure(gamma_in), gamma_out = h - c, y = r(gamma_out - gamma_in)', key='C01:cost-relations')
 
-def solve_quiet(p, guess, method):
+def solve_quiet(p, guess, method, maxiter=None):
     with warnings.catch_warnings():
         warnings.simplefilter('ignore')
         with np.errstate(all='ignore'):
@@ -160,6 +160,7 @@ def solve_quiet(p, guess, method):
                 # (non-converged solves are skipped and counted; the properties speak about converged ones)
                 opts = {'krylov': {'maxiter': 250}, 'anderson': {'maxiter': 400}, 'broyden1': {'maxiter': 400}, 'df-sane': {'maxfev': 3000},
                         'hybr': {'maxfev': 6000}, 'lm': {'maxiter': 6000}}.get(method, {})
+                if maxiter is not None: opts = {k: maxiter for k in opts}          # an interrupted solve (a few iterations only)
                 return p.solve(guess=guess, method=method, options=dict(opts, disp=False))
             except Exception as e:
                 return e
